@@ -244,11 +244,16 @@ def make_output(mk, shape):
     return out
 
 
+EQS = []  # (path, term of the original, term of the loaded object): equalities the solver has to decide
+
+
 def same(a, b, path, diffs):
-    """field-by-field comparison; tokens compare by term (no decisions), containers structurally"""
+    """field-by-field comparison; containers structurally, tokens by a solver obligation `original == loaded` (collected in EQS)"""
     if isinstance(a, S) or isinstance(b, S):
-        if not (isinstance(a, S) and isinstance(b, S) and a.t.eq(b.t)):
+        if not (isinstance(a, S) and isinstance(b, S)):
             diffs.append(f"{path}: {a!r} != {b!r}")
+        else:
+            EQS.append((path, a, b))
         return
     if isinstance(a, np.ndarray) or isinstance(b, np.ndarray):
         a_, b_ = np.asarray(a, dtype=object), np.asarray(b, dtype=object)
@@ -343,9 +348,12 @@ def roundtrip(shape, fmt, mk):
         finally:
             delattr(resmod, "float")
             delattr(resmod, "int")
+    del EQS[:]
     d = compare_outputs(ref, cur)
     d2 = compare_outputs(ref, out)  # dumping must not modify the object being dumped
-    return d + [f"dump modified its input: {x}" for x in d2]
+    eqs = list(EQS)
+    del EQS[:]
+    return d + [f"dump modified its input: {x}" for x in d2], eqs
 
 
 def replay_roundtrip(args):
@@ -391,6 +399,7 @@ def replay_roundtrip(args):
                 outmod.Output.load_tar(f"{d}/other.tar")
     except Exception as e:  # noqa
         return True, f"shape {shape} via {args['fmt']}: {type(e).__name__}: {e}"
+    del EQS[:]
     diffs = compare_outputs(ref, cur)
     return (True, f"shape {shape} via {args['fmt']}: {diffs[:4]}") if diffs else (False, "lossless with the real libraries")
 
@@ -444,6 +453,7 @@ def run(chk, only=None):
                 toks[name] = ctx.var("tok|" + name, None, None)
             return toks[name]
 
+        neqs = 0
         for shape, fmt in itertools.product(allshapes, fmts):
             if chk.tier == "quick" and fmt in ("yaml+yaml", "tar+tar") and len(shape) == 2 and (shape[0][1] or 0) + (shape[1][1] or 0) > 1:
                 continue
@@ -455,17 +465,29 @@ def run(chk, only=None):
             empties = [n for n, p, _, _ in shape if p == 0]
             key = f"roundtrip:{fmt.split('+')[0]}:{'empty-observable' if empties else 'data'}"
             try:
-                diffs = roundtrip(shape, fmt, mk)
+                diffs, eqs = roundtrip(shape, fmt, mk)
             except Exception as e:  # noqa
                 chk.report(key, f"{cname}: raises {type(e).__name__}: {str(e)[:120]}", "roundtrip", args)
                 continue
+            if not diffs and eqs:
+                # the deciding step: is there a valuation of the tokens under which a loaded number differs from the original?
+                v = chk.prover.prove(z3.And(*[a.t == b.t for _, a, b in eqs]), (), cname)
+                chk.evaluations += 1
+                neqs += len(eqs)
+                if v.status != "unsat":
+                    bad = [pth for pth, a, b in eqs if not a.t.eq(b.t)][:3]
+                    if v.status == "unknown":
+                        chk.inconclusive.append(f"{cname}: solver returned unknown")
+                        continue
+                    diffs = [f"{pth}: loaded number is not the original one" for pth in bad] or ["solver model separates loaded and original"]
             if diffs:
                 chk.report(key, f"{cname}: loaded output differs: {diffs[:3]}", "roundtrip", args)
             else:
                 chk.discharged += 1
                 if len(chk.samples) < 3:
-                    chk.sample({"shape": str(shape), "format": fmt, "verdict": "every field of load(dump(o)) is the same token as in o"})
-    chk.section("lattice", shapes=len(allshapes), formats=len(fmts))
+                    chk.sample({"shape": str(shape), "format": fmt, "token equalities": len(eqs),
+                                "verdict": "unsat: no valuation of the tokens separates load(dump(o)) from o"})
+    chk.section("lattice", shapes=len(allshapes), formats=len(fmts), token_equalities_decided_by_solver=neqs)
     chk.exhaustive = chk.tier == "thorough"
     return chk.finish(
         explanation="The real dump/load code of Output and ESFResult/EXSResult runs on outputs whose numbers are symbolic tokens, with "
